@@ -86,7 +86,7 @@ Next == /\ steps < Depth
         /\ \E op \in OpSet : \E r \in Requests(op) :
               /\ Step(r)
               /\ steps' = steps + 1
-              /\ hist' = IF Record THEN Append(hist, [ev |-> last', o |-> ObsOf(last', node')]) ELSE hist
+              /\ hist' = IF Record THEN Append(hist, [ev |-> last', o |-> ObsOf(last', node'), alt |-> AltOfIn(node, table, r)]) ELSE hist
 
 \* State after running the first n prelude requests from the initial state.
 RECURSIVE AfterPrelude(_)
@@ -96,7 +96,8 @@ AfterPrelude(n) ==
             s == ApplyF(p.node, p.table, Prelude[n])
             ob == IF s.last.out = "ok" /\ s.last.op \notin {"eq_linkage", "eq_callconv", "eq_transfer", "eq_logogram"}
                   THEN (IF s.last.r <= NConst THEN ConstNodes[s.last.r] ELSE s.node[s.last.r - NConst]) ELSE NoObs
-        IN [node |-> s.node, table |-> s.table, last |-> s.last, hist |-> Append(p.hist, [ev |-> s.last, o |-> ob])]
+        IN [node |-> s.node, table |-> s.table, last |-> s.last,
+            hist |-> Append(p.hist, [ev |-> s.last, o |-> ob, alt |-> AltOfIn(p.node, p.table, Prelude[n])])]
 
 Init == LET p == AfterPrelude(Len(Prelude)) IN
         /\ node = p.node /\ table = p.table /\ last = p.last
